@@ -63,7 +63,7 @@ def cell_points(spec):
 def gen_geometry(rng, spec):
     pts, bbox = cell_points(spec)
     real = [p for p in pts if p is not None]
-    kind = rng.choice(['box', 'box', 'all', 'point', 'line', 'triangle', 'multi', 'corner', 'border', 'box_centres'])
+    kind = rng.choice(['box', 'box', 'all', 'point', 'line', 'triangle', 'multi', 'multi', 'multi', 'corner', 'border', 'box_centres'])
     x0, y0, x1, y1 = bbox
 
     def rnd(a, b):
@@ -96,10 +96,11 @@ def gen_geometry(rng, spec):
         r = rnd(0.05, 1.5)
         return {'kind': kind, 'wkt': f'POLYGON (({p[0] - r} {p[1] - r}, {p[0] + r} {p[1] - r}, {p[0]} {p[1] + r}, {p[0] - r} {p[1] - r}))'}
     if kind == 'multi':
-        p, q = rng.choice(real), rng.choice(real)
-        r = 0.05
+        # several small disjoint parts: concave / scattered selections (U shapes, rings, cells one apart)
+        parts = rng.sample(real, min(len(real), rng.choice([2, 2, 3, 4])))
+        r = 0.01
         return {'kind': kind, 'wkt': 'MULTIPOLYGON (' + ', '.join(
-            f'(({u[0] - r} {u[1] - r}, {u[0] + r} {u[1] - r}, {u[0] + r} {u[1] + r}, {u[0] - r} {u[1] + r}, {u[0] - r} {u[1] - r}))' for u in (p, q)) + ')'}
+            f'(({u[0] - r} {u[1] - r}, {u[0] + r} {u[1] - r}, {u[0] + r} {u[1] + r}, {u[0] - r} {u[1] + r}, {u[0] - r} {u[1] - r}))' for u in parts) + ')'}
     if kind == 'corner':
         # a point exactly on a cell vertex: touches every cell sharing it
         w = worldgen.World(spec)
@@ -182,7 +183,9 @@ class ClipSim:
         if rng.random() < 0.04:
             # a data variable named like one of the files the pipeline itself writes
             world['vars'][0]['name'] = '__coords__' if world['conv'] != 'ugrid' else rng.choice(['__coords__', 'Mesh2_data'])
-        env = {'dask_workers': rng.choice([1, 2, 3, 4]), 'dask_order_seed': rng.randrange(1 << 20)}
+        env = {'dask_workers': rng.choice([1, 2, 3, 4]), 'dask_order_seed': rng.randrange(1 << 20),
+               # xarray's global LRU of open file handles: with a tiny cache every lazy read re-opens its file by path
+               'file_cache_maxsize': rng.choice([1, 2, 128, 128])}
         nw = n_writes(world)
         lts = []
         masks, results = [], []
@@ -330,6 +333,10 @@ class ClipSim:
             p = copy.deepcopy(plan)
             p['env']['dask_workers'] = 1
             yield p
+        if plan['env'].get('file_cache_maxsize', 128) != 128:
+            p = copy.deepcopy(plan)
+            p['env']['file_cache_maxsize'] = 128
+            yield p
         yield from common.shrink_world_in_plan(plan)
         w = plan['world']
         for dim in ('ny', 'nx'):
@@ -362,7 +369,7 @@ class ClipSim:
         judged = {'C08': False, 'C09': False}
         sig_lts = []
         for li, lt in enumerate(plan['lifetimes']):
-            res = lifetimes.run_lifetime(_clip_lifetime, plan, li, scratch, timeout=180)
+            res = lifetimes.run_lifetime(_clip_lifetime, plan, li, scratch, sorted(model['files']), timeout=180)
             if res['status'] in ('harness_error', 'timeout'):
                 out.harness_error = f'lifetime {li}: {res["error"]}'
                 return
@@ -423,6 +430,13 @@ class ClipSim:
         """A fault-free op raised."""
         name = op['op']
         detail = f"fault-free {name} raised {r['exc']}: {msg}"
+        if name == 'reclip' and (model['res'].get(op['src']) is None or r.get('work_dropped')):
+            # the source is not an acknowledged result (e.g. a file left behind by a save that failed), or its
+            # work_dir was deleted before it was used: nothing is promised
+            out.stats['probe.reclip_of_unusable_source'] += 1
+            return
+        if name in ('load', 'save') and model['res'].get(op['res']) is None:
+            return
         if name in ('apply', 'clip', 'reclip'):
             # an empty selection may raise (the clauses are vacuous)
             if r.get('empty_selection'):
@@ -443,6 +457,8 @@ class ClipSim:
         elif name in ('reopen',):
             out.violate('C09', 'reopen-raised', r['frame'], detail)
         elif name in ('select_variables',):
+            if op.get('src') is not None and (model['res'].get(op['src']) is None or r.get('work_dropped')):
+                return
             out.violate('C09', 'select-raised', r['frame'], detail)
         elif name in ('make_mask', 'save_mask', 'load_mask'):
             # mask construction is C07's business; saving/loading a mask is plain xarray
@@ -641,7 +657,7 @@ def _raw_file_info(path):
     return info
 
 
-def _clip_lifetime(ctx, plan, li, scratch):
+def _clip_lifetime(ctx, plan, li, scratch, acked_files=()):
     import shapely
     import xarray
 
@@ -651,6 +667,7 @@ def _clip_lifetime(ctx, plan, li, scratch):
     raw = seams.install_xarray_seams(ctl)
     seams.install_ncfix_seam(ctl)
     sched = dasksched.install(ctl, env['dask_order_seed'] * 7 + li, env['dask_workers'])
+    xarray.set_options(file_cache_maxsize=env.get('file_cache_maxsize', 128))
     world = worldgen.World(plan['world'])
     lt = plan['lifetimes'][li]
     masks, results, work_of, dropped = {}, {}, {}, set()
@@ -686,6 +703,8 @@ def _clip_lifetime(ctx, plan, li, scratch):
             missing = 'src'
         if name in ('load_mask', 'reopen') and not os.path.exists(os.path.join(scratch, op['path'])):
             missing = 'file'
+        if name == 'reopen' and op['path'] not in acked_files:
+            missing = 'file'      # left behind by a save that failed or crashed: nothing was acknowledged
         if missing:
             ctx.emit('op_done', k=k, op=name, acked=False, skipped=True, fired=[])
             continue
@@ -728,6 +747,7 @@ def _clip_lifetime(ctx, plan, li, scratch):
                 work_of[op['res']] = wd
             elif name == 'reclip':
                 src = results[op['src']]
+                extra['work_dropped'] = op['src'] in dropped
                 obs['src'] = observe.observe_dataset(src, polygons=True)
                 if isinstance(obs['src'].get('polygons'), dict) and not world.explicit_geometry():
                     # e.g. a 1xN CF grid without bounds: emsarray cannot derive cell edges from a single
